@@ -23,6 +23,7 @@ func init() {
 			"C32.R1 dominance: per-page work in a loop over a page selection is behind the entry's value being true",
 			"C32.R2 TABLE: page rotations are reduced modulo 360 with the negative remainder corrected",
 			"C32.R3 source: rotatePage composes the delta with the effective (inherited) rotation",
+			"C32.R5 TABLE: addPage makes all four inheritable page attributes explicit on a migrated page; Rotate under an (in)equality with 0",
 			"C32.R4 TABLE: api.Collect extracts pages without the page cache (one page object per occurrence)",
 		},
 		Assumptions: []string{"page selections reach the page operations as types.IntSet values from the pkg/api producers"},
@@ -39,6 +40,8 @@ func runC32(c *Ctx) {
 	r.MinInst["C32.R3"] = 1
 	r.MinInst["C32.R4"] = 1
 	checkC32Round4(c)
+	r.MinInst["C32.R5"] = 4
+	checkAddPageKeepsInherited(c)
 	var fns []*ssa.Function
 	for _, fn := range p.Funcs {
 		if isSubject(fn) {
@@ -253,5 +256,60 @@ func checkC32Round4(c *Ctx) {
 		if n == 0 {
 			r.Bad("C32.R4", FuncID(fn), "one page object per occurrence", p.Pos(fn.Pos()), "UNDECIDED: Collect does not call ExtractPages")
 		}
+	}
+}
+
+// R5: the pages an operation keeps come out as they were. addPage moves a page into the new page tree, where nothing is
+// inherited any more, so it has to make every inheritable page attribute explicit (ISO 32000 Table 30 / 7.7.3.4:
+// Resources, MediaBox, CropBox, Rotate): it stores all four keys into the page dictionary, and the store of Rotate is
+// guarded by an (in)equality with 0, not by an ordering (a negative inherited rotation is a rotation).
+func checkAddPageKeepsInherited(c *Ctx) {
+	p, r := c.P, c.R
+	const fid = "pkg/pdfcpu.addPage"
+	fn := p.Func(fid)
+	if fn == nil {
+		r.Bad("C32.R5", fid, "anchor", "", "UNRESOLVED-ANCHOR")
+		return
+	}
+	stored := map[string]*ssa.MapUpdate{}
+	eachInstr(fn, func(_ *ssa.BasicBlock, _ int, i ssa.Instruction) {
+		if mu, ok := i.(*ssa.MapUpdate); ok {
+			if k, ok := constString(mu.Key); ok {
+				stored[k] = mu
+			}
+		}
+	})
+	for _, k := range []string{"Resources", "MediaBox", "CropBox", "Rotate"} {
+		construct := "inherited " + k
+		mu := stored[k]
+		if mu == nil {
+			r.Bad("C32.R5", fid, construct, p.Pos(fn.Pos()), "the migrated page does not get an explicit /"+k+": in the new page tree nothing is inherited, so a page that inherited it comes out without it (trim, collect, remove, split and extract all go through addPage)")
+			continue
+		}
+		if k == "Rotate" {
+			ordering := false
+			for _, x := range fn.Blocks {
+				if len(x.Instrs) == 0 {
+					continue
+				}
+				ifi, ok := x.Instrs[len(x.Instrs)-1].(*ssa.If)
+				if !ok {
+					continue
+				}
+				if edgeDominates(Edge{x, 0}, mu.Block()) != edgeDominates(Edge{x, 1}, mu.Block()) {
+					if bo, ok := ifi.Cond.(*ssa.BinOp); ok {
+						switch bo.Op.String() {
+						case "<", "<=", ">", ">=":
+							ordering = true
+						}
+					}
+				}
+			}
+			if ordering {
+				r.Bad("C32.R5", fid, construct, p.Pos(mu.Pos()), "the inherited rotation is made explicit only on one side of an ordering comparison: a negative inherited /Rotate (-90) is dropped and the page comes out unrotated")
+				continue
+			}
+		}
+		r.OK("C32.R5", fid, construct, p.Pos(mu.Pos()), "made explicit on the migrated page", true)
 	}
 }
